@@ -154,7 +154,36 @@ fn child(dir: &Path, op: &Value) -> Value {
     serde_json::from_slice::<Value>(&out.stdout).unwrap_or(json!({"harness_error": "child produced no JSON"}))
 }
 
+/// One history = the life of ONE engine process from its start (the model's `init`: empty footer caches, empty
+/// dict-cols cache, a usable BUILD_LOCK).  The path-keyed caches are per history anyway (every history has its
+/// own directory); the one process-global thing that leaks is BUILD_LOCK: a panic inside build_sidecar —
+/// reachable through a stale footer of another layout — poisons it and the process never builds a sidecar
+/// again.  So in Build mode every top-level history is followed by a probe (a fresh 2-row table must get its
+/// sidecar built); when the probe fails the process retires: it answers the current history (which started with
+/// a usable lock) and exits before the next one, and the check re-submits the rest to a new process.
+static RETIRED: std::sync::atomic::AtomicBool = std::sync::atomic::AtomicBool::new(false);
+
+fn build_lock_usable() -> bool {
+    let tmp = tempfile::tempdir().unwrap();
+    write_table(tmp.path(), &json!({"content": 1, "rows": 2, "rg": 2, "mtime": [1600000000u64, 0]}));
+    let _ = query(tmp.path(), "SELECT count(*) FROM t WHERE a >= 0");
+    tmp.path().join("t.parquet.qeipc").join(".complete").exists()
+}
+
 fn case(v: &Value) -> Value {
+    let top = v["dir"].as_str().is_none();
+    if top && RETIRED.load(std::sync::atomic::Ordering::SeqCst) {
+        std::process::exit(0);
+    }
+    let mut out = run_history(v);
+    if top && std::env::var("QE_IPC_CACHE").as_deref() == Ok("1") && !build_lock_usable() {
+        RETIRED.store(true, std::sync::atomic::Ordering::SeqCst);
+        out["retired_after"] = json!(true);
+    }
+    out
+}
+
+fn run_history(v: &Value) -> Value {
     let tmp;
     let dir: PathBuf = match v["dir"].as_str() {
         Some(d) => PathBuf::from(d),
